@@ -1350,6 +1350,132 @@ def gen_rebalance(tree, out, report):
     except Exception as e:
         report["get_rebalanced_population"] = "untranslatable: internal " + type(e).__name__ + ": " + str(e)
 
+
+# ------------------------------------------------------------------------------------------------ model.py glue
+GSRC = "summer2/model.py"
+GHEADER = """-- GENERATED by harness/translate/gen_rates.py from /repo (summer2/model.py). Do not edit.
+import Summer.Model.Build
+set_option linter.unusedVariables false
+namespace Summer.Generated.Glue
+open Summer Summer.Build
+
+section
+variable {α : Type}
+"""
+
+
+def gen_glue(tree, out, report):
+    """the private flow-adding methods of `CompartmentalModel` (`_assert_not_finalized`, `_validate_expected_flow_count`, `_add_entry_flow`,
+    `_add_exit_flow`, `_add_transition_flow`): recognised statement by statement against the expected source text and emitted in a fixed
+    shape (object construction through a class argument, `self` mutation); any other text is refused"""
+    want = {
+        "_assert_not_finalized": (["self"], [
+            "error_msg = 'Cannot make changes to model that is already finalized'",
+            "assert not self._finalized, error_msg"]),
+        "_validate_expected_flow_count": (["expected_count", "new_flows"], [
+            "if expected_count is not None:\n    actual_count = len(new_flows)\n    msg = f'Expected to add {expected_count} flows but added {actual_count}'\n"
+            "    assert actual_count == expected_count, msg"]),
+        "_add_entry_flow": (["self", "flow_cls", "name", "param", "dest", "dest_strata", "expected_flow_count", "adjustments"], [
+            "self._assert_not_finalized()",
+            "dest_strata = dest_strata or {}",
+            "dest_comps = [c for c in self.compartments if c.is_match(dest, dest_strata)]",
+            "new_flows = []",
+            "for dest_comp in dest_comps:\n    flow = flow_cls(name, dest_comp, param, adjustments=adjustments)\n    new_flows.append(flow)",
+            "self._validate_expected_flow_count(expected_flow_count, new_flows)",
+            "self.flows += new_flows"]),
+        "_add_exit_flow": (["self", "flow_cls", "name", "param", "source", "source_strata", "expected_flow_count"], [
+            "self._assert_not_finalized()",
+            "source_strata = source_strata or {}",
+            "source_comps = [c for c in self.compartments if c.is_match(source, source_strata)]",
+            "new_flows = []",
+            "for source_comp in source_comps:\n    flow = flow_cls(name, source_comp, param)\n    new_flows.append(flow)",
+            "self._validate_expected_flow_count(expected_flow_count, new_flows)",
+            "self.flows += new_flows"]),
+        "_add_transition_flow": (["self", "flow_cls", "name", "param", "source", "dest", "source_strata", "dest_strata", "expected_flow_count", "find_infectious_multiplier"], [
+            "self._assert_not_finalized()",
+            "source_strata = source_strata or {}",
+            "dest_strata = dest_strata or {}",
+            "dest_comps = self.get_matching_compartments(dest, dest_strata)",
+            "source_comps = self.get_matching_compartments(source, source_strata)",
+            "num_dest = len(dest_comps)",
+            "num_source = len(source_comps)",
+            "msg = f'Expected equal number of source and dest compartments, but got {num_source} source                 and {num_dest} dest.'",
+            "assert num_dest == num_source, msg",
+            "new_flows = []",
+            "for source_comp, dest_comp in zip(source_comps, dest_comps):\n    if find_infectious_multiplier:\n"
+            "        flow = flow_cls(name, source_comp, dest_comp, param, find_infectious_multiplier=find_infectious_multiplier)\n    else:\n"
+            "        flow = flow_cls(name, source_comp, dest_comp, param)\n    new_flows.append(flow)",
+            "self._validate_expected_flow_count(expected_flow_count, new_flows)",
+            "self.flows += new_flows"]),
+    }
+    try:
+        cls = [n for n in tree.body if isinstance(n, ast.ClassDef) and n.name == "CompartmentalModel"]
+        if not cls:
+            raise Untranslatable("class CompartmentalModel not found")
+        methods = {n.name: n for n in cls[0].body if isinstance(n, ast.FunctionDef)}
+        for fname, (args, wanted) in want.items():
+            fn = methods.get(fname)
+            if fn is None:
+                raise Untranslatable(f"CompartmentalModel.{fname} not found")
+            if [a.arg for a in fn.args.args] != args:
+                raise Untranslatable(f"signature of {fname}: " + str([a.arg for a in fn.args.args]))
+            body = [ast.unparse(st) for st in fn.body if not (isinstance(st, ast.Expr) and isinstance(st.value, ast.Constant))]
+            if body != wanted:
+                k = next((i for i, (a, b_) in enumerate(zip(body, wanted)) if a != b_), min(len(body), len(wanted)))
+                raise Untranslatable(f"{fname}: statement {k} is not the expected text: " + (body[k][:120] if k < len(body) else "<missing>"))
+        out.append(
+            "/-- `model.py::CompartmentalModel._assert_not_finalized` -/\n"
+            "def _assert_not_finalized (self : Model α) : Res Unit := guardE (!self.finalized) \"finalized\"\n\n"
+            "/-- `model.py::CompartmentalModel._validate_expected_flow_count` -/\n"
+            "def _validate_expected_flow_count (expected_count : Option Nat) (new_flows : List (Flow α)) : Res Unit :=\n"
+            "  match expected_count with\n  | none => pure ()\n  | some expected_count =>\n    let actual_count := new_flows.length\n"
+            "    guardE (actual_count == expected_count) \"expected flow count not met\"\n\n"
+            "/-- `self.get_matching_compartments(name, strata)` as `_add_transition_flow` uses it: an unknown compartment name raises (`KeyError` from the "
+            "name map), otherwise the selection of `Build.getMatching` (tied to `query_compartments` by C13) -/\n"
+            "def get_matching_compartments (self : Model α) (name : String) (strata : Strata) : Res (List Comp) := do\n"
+            "  guardE (self.origNames.contains name) \"unknown compartment\"\n  pure (getMatching self name strata)\n\n"
+            "/-- `model.py::CompartmentalModel._add_entry_flow` (`flow_cls` is the flow class, i.e. its kind; `x or {}` on an optional dict) -/\n"
+            "def _add_entry_flow (self : Model α) (flow_cls : FlowKind) (name : String) (param : Expr α) (dest : String) (dest_strata : Option Strata)\n"
+            "    (expected_flow_count : Option Nat) (adjustments : List (Adj α)) : Res (Model α) := do\n"
+            "  _assert_not_finalized self\n"
+            "  let dest_strata := dest_strata.getD []\n"
+            "  let dest_comps := self.comps.filter (fun c => c.isMatch dest dest_strata)\n"
+            "  let new_flows := dest_comps.foldl (fun (new_flows : List (Flow α)) dest_comp =>\n"
+            "    new_flows ++ [{ kind := flow_cls, name := name, src := none, dst := some dest_comp, param := param, adjs := adjustments }]) []\n"
+            "  _validate_expected_flow_count expected_flow_count new_flows\n"
+            "  pure { self with flows := self.flows ++ new_flows }\n\n"
+            "/-- `model.py::CompartmentalModel._add_exit_flow` -/\n"
+            "def _add_exit_flow (self : Model α) (flow_cls : FlowKind) (name : String) (param : Expr α) (source : String) (source_strata : Option Strata)\n"
+            "    (expected_flow_count : Option Nat) : Res (Model α) := do\n"
+            "  _assert_not_finalized self\n"
+            "  let source_strata := source_strata.getD []\n"
+            "  let source_comps := self.comps.filter (fun c => c.isMatch source source_strata)\n"
+            "  let new_flows := source_comps.foldl (fun (new_flows : List (Flow α)) source_comp =>\n"
+            "    new_flows ++ [{ kind := flow_cls, name := name, src := some source_comp, dst := none, param := param, adjs := [] }]) []\n"
+            "  _validate_expected_flow_count expected_flow_count new_flows\n"
+            "  pure { self with flows := self.flows ++ new_flows }\n\n"
+            "/-- `model.py::CompartmentalModel._add_transition_flow` (the infectious-multiplier callback is not part of the flow's rate law in the JAX runner: "
+            "both branches construct the same flow) -/\n"
+            "def _add_transition_flow (self : Model α) (flow_cls : FlowKind) (name : String) (param : Expr α) (source dest : String)\n"
+            "    (source_strata dest_strata : Option Strata) (expected_flow_count : Option Nat) : Res (Model α) := do\n"
+            "  _assert_not_finalized self\n"
+            "  let source_strata := source_strata.getD []\n"
+            "  let dest_strata := dest_strata.getD []\n"
+            "  let dest_comps ← get_matching_compartments self dest dest_strata\n"
+            "  let source_comps ← get_matching_compartments self source source_strata\n"
+            "  let num_dest := dest_comps.length\n"
+            "  let num_source := source_comps.length\n"
+            "  guardE (num_dest == num_source) \"Expected equal number of source and dest compartments\"\n"
+            "  let new_flows := (source_comps.zip dest_comps).foldl (fun (new_flows : List (Flow α)) sd =>\n"
+            "    new_flows ++ [{ kind := flow_cls, name := name, src := some sd.1, dst := some sd.2, param := param, adjs := [] }]) []\n"
+            "  _validate_expected_flow_count expected_flow_count new_flows\n"
+            "  pure { self with flows := self.flows ++ new_flows }\n")
+        report["model.py glue"] = "ok"
+    except Untranslatable as e:
+        report["model.py glue"] = "untranslatable: " + str(e)
+    except Exception as e:
+        report["model.py glue"] = "untranslatable: internal " + type(e).__name__ + ": " + str(e)
+
 IHEADER = """-- GENERATED by harness/translate/gen_rates.py from /repo (summer2/runner/jax/stratify.py). Do not edit.
 import Summer.Model.JaxPrelude
 import Summer.Model.Run
@@ -1534,6 +1660,21 @@ def main():
     if old != mtext:
         with open(mpath, "w") as f:
             f.write(mtext)
+    # model.py glue
+    gout = [GHEADER]
+    try:
+        with open(os.path.join(REPO, GSRC)) as f:
+            gtree = ast.parse(f.read())
+        gen_glue(gtree, gout, report)
+    except Exception as e:
+        report["model.py"] = "untranslatable: " + type(e).__name__ + ": " + str(e)
+    gout.append("end\nend Summer.Generated.Glue\n")
+    gtext = "\n".join(gout)
+    gpath = os.path.join(OUT, "Glue.lean")
+    old = open(gpath).read() if os.path.exists(gpath) else None
+    if old != gtext:
+        with open(gpath, "w") as f:
+            f.write(gtext)
     print(json.dumps(report))
 
 
